@@ -158,11 +158,59 @@ def sequenceFrom (tbl : Kind → Proc) (refusalStops : Bool) : List (Kind × Out
     (sessionFrom refusalStops (tbl k) o h).flatMap fun d =>
       (sequenceFrom tbl refusalStops rest d.held).map fun e => d.add e
 
-/-- another session on the same store holds the lock when this one wants it (in its constructor or in `Run`) and
-    releases it later: whoever waited gets the lock then, so the holder's lock/unlock simply precedes the session -/
-def holder : Delta := activation [.L, .U] (Delta.start 0)
+/-! ### contention: the lock is HELD by somebody else when the session wants it -/
 
-def busyFrom (p : Proc) (o : Outcome) : List Delta := (sessionFrom true p o holder.held).map holder.add
+/-- the store while another holder `H` has the lock: `d` counts H's own acquisition too -/
+structure CState where
+  d      : Delta
+  hHolds : Bool    -- H still has the lock
+  waited : Nat     -- how often the session found the lock taken and had to wait for H's release
+deriving Repr, DecidableEq
+
+/-- H took the lock before the session began -/
+def CState.init : CState := ⟨activation [.L] (Delta.start 0), true, 0⟩
+
+/-- one event of the session under contention. `LockKeyshare` on a taken mutex blocks - it does not look at any
+    context, so a cancellation of the session meanwhile changes nothing until the lock has been obtained - and
+    continues once H has released (assumed: H eventually does). Everything else is as without contention. -/
+def evStepC (s : CState × Nat) : Ev → CState × Nat
+  | .L =>
+    let c := if s.1.hHolds then { s.1 with d := unlock s.1.d, hHolds := false, waited := s.1.waited + 1 } else s.1
+    let r := evStep (c.d, s.2) .L
+    ({ c with d := r.1 }, r.2)
+  | e =>
+    let r := evStep (s.1.d, s.2) e
+    ({ s.1 with d := r.1 }, r.2)
+
+def activationC (evs : List Ev) (c : CState) : CState :=
+  let s := evs.foldl evStepC (c, 0)
+  { s.1 with d := runDeferred s.2 s.1.d }
+
+def andThenC (cs : List CState) (alts : List (List Ev)) : List CState :=
+  cs.flatMap fun c => alts.map fun p => activationC p c
+
+/-- H releases at the latest when the session is over (if the session never asked for the lock) -/
+def CState.finish (c : CState) : CState :=
+  if c.hHolds then { c with d := unlock c.d, hHolds := false } else c
+
+/-- every way a session of `p` with outcome `o` can go when the lock is held by somebody else as it begins: which
+    path each function takes AFTER the session got the lock is free (a cancellation that arrived while it waited may
+    send it down any early return) -/
+def contendedFrom (p : Proc) (o : Outcome) : List CState :=
+  let born := andThenC [CState.init] (pathsOf p.ctor .full)
+  let stops := pathsOf p.stop .full ++ pathsOf p.stop .early
+  (match o with
+  | .ctorerr  => andThenC [CState.init] (pathsOf p.ctor .ctorErr)
+  | .refused  => andThenC born stops
+  | .never    => andThenC born stops
+  | .rejected => andThenC (andThenC born (pathsOf p.run .early)) stops
+  | .ran      => andThenC (andThenC born (pathsOf p.run .full)) stops).map CState.finish
+
+/-- for exclusive kinds nothing releases the lock between the start of the protocol (`W`) and the end of `Run` -/
+def noReleaseAfterW : List Ev → Bool
+  | [] => true
+  | .W :: rest => !rest.contains .U
+  | _ :: rest => noReleaseAfterW rest
 
 /-! ### the property -/
 
